@@ -19,7 +19,10 @@ scalings, any allocation choices, any `now`), **every migration limit** and ever
 proxy address; the induction covers every intermediate state. The single hypothesis is the size
 bound `PlanBound`: no cluster ever has more than 16384 masters (with more masters
 `SLOT_NUM / masters = 0` and the code cuts zero-length ranges; see DESIGN §7 F11 and the
-witnesses in `notes/C01-plan.md`). Ordered-proxy mode is not modelled.
+witnesses in `notes/C01-plan.md`). Both modes of the broker are covered: an operation list that
+starts with `Op.setOrdered` is a history of a broker started with `enable_ordered_proxy = true`
+(`runOrdered`; index-ordered allocation, one cluster, failover without replacement — see
+`ordOps` at the end of the file).
 -/
 namespace Um.Broker.C01
 open Um Um.Slots Um.Broker Um.Broker.Plan
@@ -145,5 +148,33 @@ theorem C01_reversed_range_witness : slotsOf (compact [(7, 6)]) = [6, 7] ∧ slo
 `addCluster c 4`, `addNodes c 4`, `migrate c`: two migrations in flight) satisfies the three
 invariants, and its served view is a partition view -/
 example : PartitionView exView := exView_partition
+
+/-! ## ordered-proxy mode: the same theorems on a history of a broker started with
+`enable_ordered_proxy = true` (all four proxies on one host, indices 0..3; cluster on 0,1;
+scale-out onto 2,3; migration started; failover of `p0:1`, which is not replaced) -/
+
+def ordOps : List Op :=
+  [.setOrdered,
+   .addProxy "p0:1" "n0" "n1" (some "h0") (some 0), .addProxy "p1:1" "n2" "n3" (some "h0") (some 1),
+   .addProxy "p2:1" "n4" "n5" (some "h0") (some 2), .addProxy "p3:1" "n6" "n7" (some "h0") (some 3),
+   .addCluster "c" 4 [("p0:1", "p1:1")], .addNodes "c" 4 [("p2:1", "p3:1")], .migrate "c",
+   .failover "p0:1" "-"]
+
+theorem ordOps_bound : ∀ k, PlanBound (run (ordOps.take k)) := by
+  have hsmall : ∀ k, k < 10 → ∀ c ∈ (run (ordOps.take k)).clusters, c.chunks.length * 2 ≤ SLOT_NUM := by
+    decide +kernel
+  intro k
+  by_cases hk : k < 10
+  · exact hsmall k hk
+  · have : ordOps.take k = ordOps.take 9 := by
+      rw [List.take_of_length_le (by simp [ordOps]; omega), List.take_of_length_le (by simp [ordOps])]
+    rw [this]; exact hsmall 9 (by omega)
+
+example : (run ordOps).ordered = true ∧ ((run ordOps).findCluster "c").isSome = true ∧
+    ((run ordOps).findCluster "c").map (·.isMigrating) = some true := by decide +kernel
+example : ∀ c ∈ (run ordOps).clusters, PosInv c ∧ TwinInv c ∧ SlotInv c := C01_store_invariants ordOps ordOps_bound
+example (limit : Nat) : clusterView (run ordOps) "c" limit = .ok none ∨
+    ∃ v, clusterView (run ordOps) "c" limit = .ok (some v) ∧ PartitionView v :=
+  C01_partition ordOps ordOps_bound "c" limit
 
 end Um.Broker.C01
